@@ -142,6 +142,8 @@ def apply_edit(eng, spec, ed):
         spec["blocks"][bi]["rules"][dst] = new
         r = eng.rule_blocks[bi].rules[dst]
         r.text = gen.rule_text(new)
+        if new.get("weight") is not None:
+            r.weight = float(new["weight"])  # the text carries the weight at 3 decimals only
         r.load(eng)
     return spec
 
@@ -161,7 +163,7 @@ def check_history(ctx, case) -> None:
     spec0, ops = case["spec"], case["ops"]
     lockprev = any(v.get("lock_previous") for v in spec0["outputs"])
     cur_spec = _copy.deepcopy(spec0)
-    cur = build.mk_engine(cur_spec)
+    cur = build.mk_engine(cur_spec, explicit_weights=True)
     orig = orig_spec = None
     orig_suspended = False
     inputs = None
@@ -178,7 +180,7 @@ def check_history(ctx, case) -> None:
             return
         if (lockprev and not twin_ok) or suspended:
             return
-        tw = build.mk_engine(_copy.deepcopy(cur_spec))
+        tw = build.mk_engine(_copy.deepcopy(cur_spec), explicit_weights=True)
         seq = since if lockprev else since[-1:]
         for inp in seq:
             set_inputs(tw, inp)
@@ -228,6 +230,12 @@ def check_history(ctx, case) -> None:
                         bad.append(("rule-not-loaded", r.text))
             ctx.check(not bad, "restart-state", sub, {"not_clean": bad})
             ctx.cls("restarts")
+            # "after restart() the engine behaves exactly like a freshly built one": process the probe row at once
+            inputs = probe
+            set_inputs(cur, inputs)
+            cur.process()
+            since.append(inputs)
+            twin_check("restart-not-like-fresh", sub)
         elif kind == "copy":
             orig, orig_spec, orig_suspended = cur, _copy.deepcopy(cur_spec), suspended
             cur = orig.copy()
@@ -299,6 +307,11 @@ def check_history(ctx, case) -> None:
                 twin_ok = False
             ctx.cls("toggle:" + op[1][0])
             _ = i
+        elif kind == "flip":  # persistent change of an enabled flag (the spec follows)
+            toggle(cur, cur_spec, op[1])
+            if lockprev:
+                twin_ok = False
+            ctx.cls("flip:" + op[1][0])
         elif kind == "unload":
             bi = op[1] % len(cur.rule_blocks)
             ri = op[2] % len(cur.rule_blocks[bi].rules)
@@ -314,6 +327,8 @@ def check_history(ctx, case) -> None:
             new["enabled"] = cur_spec["blocks"][bi]["rules"][dst].get("enabled", True)
             cur_spec["blocks"][bi]["rules"][dst] = new
             cur.rule_blocks[bi].rules[dst].text = gen.rule_text(new)
+            if new.get("weight") is not None:
+                cur.rule_blocks[bi].rules[dst].weight = float(new["weight"])
             suspended = True
             ctx.cls("retext_without_load")
         elif kind == "process_orig":
@@ -325,7 +340,7 @@ def check_history(ctx, case) -> None:
             ctx.check(same_snap(keep, snapshot(cur)), "processing-original-changed-copy", sub,
                       {"before": keep, "after": snapshot(cur)})
             if not any(v.get("lock_previous") for v in orig_spec["outputs"]) and not orig_suspended:
-                tw = build.mk_engine(_copy.deepcopy(orig_spec))
+                tw = build.mk_engine(_copy.deepcopy(orig_spec), explicit_weights=True)
                 set_inputs(tw, ("row", op[1]))
                 tw.process()
                 ctx.check(same_snap(snapshot(orig), snapshot(tw)), "original-history-dependence", sub,
@@ -350,7 +365,7 @@ def cases(draw, maxlen=25):
     edit = st.one_of(
         st.tuples(st.just("height"), st.integers(0, 3), st.integers(0, 3), st.sampled_from([0.5, 0.25, 1.0])).map(list),
         st.tuples(st.just("shift"), st.integers(0, 3), st.integers(0, 3), st.sampled_from([0.125, -0.25, 0.5])).map(list),
-        st.tuples(st.just("weight"), st.integers(0, 1), st.integers(0, 5), st.sampled_from([0.5, 0.25, 0.0, 1.0])).map(list),
+        st.tuples(st.just("weight"), st.integers(0, 1), st.integers(0, 5), st.sampled_from([0.5, 0.25, 0.0, 1.0, 0.12345, 0.9996, 0.0004])).map(list),
         st.tuples(st.just("operator"), st.integers(0, 1), st.sampled_from(["AlgebraicProduct", "Minimum", "BoundedDifference"])).map(list),
         st.tuples(st.just("range"), st.integers(0, 1), st.sampled_from([0.5, 1.0, 8.0])).map(list),
         st.tuples(st.just("default"), st.integers(0, 1), st.sampled_from([0.0, 1.5, math.nan])).map(list),
@@ -362,10 +377,19 @@ def cases(draw, maxlen=25):
         st.tuples(st.just("set"), st.just("batch"), st.lists(row, min_size=1, max_size=4)).map(list),
         st.just(["process"]), st.just(["process"]), st.just(["process2"]), st.just(["restart"]), st.just(["copy"]),
         st.tuples(st.just("edit"), edit).map(list), st.tuples(st.just("toggle"), which).map(list),
+        st.tuples(st.just("flip"), which).map(list),
         st.tuples(st.just("process_orig"), row).map(list),
         st.tuples(st.just("unload"), st.integers(0, 1), st.integers(0, 5)).map(list),
         st.tuples(st.just("retext"), st.integers(0, 1), st.integers(0, 5), st.integers(0, 5)).map(list))
     ops = draw(st.lists(op, min_size=2, max_size=maxlen))
+    if draw(st.integers(0, 3)) == 0:
+        # planted pattern: use the engine, edit it, restart, use it again (restart must keep programmatic edits and
+        # behave like a fresh engine with those edits)
+        ops = ops[: maxlen - 5] + [["set", "row", draw(row)], ["process"], ["edit", draw(edit)], ["restart"], ["process"]]
+    elif draw(st.integers(0, 5)) == 0:
+        # planted pattern: restart while a component is disabled, then enable it again
+        w = draw(which)
+        ops = ops[: maxlen - 6] + [["set", "row", draw(row)], ["process"], ["flip", w], ["restart"], ["flip", w], ["process"]]
     _ = nb, no, ni
     return {"spec": spec, "ops": ops, "probe": draw(row)}
 
